@@ -761,8 +761,21 @@ def poser(prog, run):
         yv = y.value.id if isinstance(y.value, ast.Name) else None
         checking = [s_ for s_ in before if any(isinstance(x, ast.Raise) for x in ast.walk(s_))]
         if yv is not None and checking and not any(isinstance(x, ast.Name) and x.id == yv for s_ in checking for x in ast.walk(s_)):
-            oky = False
-            why_dep = f"the check before `yield {yv}` never looks at `{yv}`"
+            # the check is written in terms of other names: values taken from the setup earlier (its algorithms paired with the names, an
+            # entry of a list prepared per setup) or something else altogether - which, is not read
+            oky = None if oky else oky
+            why_dep = f"the check before `yield {yv}` is not written in terms of `{yv}`: whether it concerns that setup was not followed"
+            # recognisably wrong: the check reads the leftover variable of an EARLIER loop (one that is over before this one starts) - the same,
+            # last, element for every setup that is yielded
+            bound_here = {x.id for x in ast.walk(loop.target) if isinstance(x, ast.Name)} | {x.id for s_ in loop.body for x in ast.walk(s_) if isinstance(x, ast.Name) and isinstance(x.ctx, ast.Store)}
+            for other in ast.walk(g.node):
+                if isinstance(other, ast.For) and other is not loop and getattr(other, "end_lineno", 0) < loop.lineno and not astq._contains(other, loop):
+                    left = {x.id for x in ast.walk(other.target) if isinstance(x, ast.Name)} - bound_here
+                    used = sorted(left & {x.id for s_ in checking for x in ast.walk(s_) if isinstance(x, ast.Name) and isinstance(x.ctx, ast.Load)})
+                    if used:
+                        oky = False
+                        why_dep = (f"the check before `yield {yv}` reads `{used[0]}`, the variable left over from the loop `for {astq.src(other.target, 20)} in {astq.src(other.iter, 30)}` "
+                                   f"that has ended: every setup is checked against the LAST element of that loop, never against itself")
     if not yields:
         # not a generator: the validated setups are handed back in one piece.  Sound when the run / modes-extracted check (a raise whose test
         # reads result / Fn) is reached on every path before the return; anything else is not read
